@@ -1,4 +1,6 @@
 import Corro.Model.Members
+import Corro.Gen.MembersConsts
+import Corro.Gen.MembersGlue
 import Driver.Util
 /-! Line-protocol driver for C18 (membership view).
 
@@ -8,7 +10,10 @@ answer after every op: `<ret> | <states> | <by_addr> | <rtts>` with
   ret     `new`/`upd`/`ign` · `removed=true`/`removed=false` · `ok` · `r0=<addr list>`
   states  `actor:addr:ts:cluster:ring` (ring `n` = None), sorted by actor
   by_addr `addr>actor`, sorted by addr
-  rtts    `addr:len:sum`, sorted by addr -/
+  rtts    `addr:len:sum`, sorted by addr
+the glue family: `nup|ndown|nrename|nrejoin <actor> <addr> <ts> <cluster>` · `nactive` · `nidle` ·
+`ndefunct` queue a notification (`queued`); `flush` folds `applyNotif` with the dispatch table read off
+`handle_notifications` (`Corro/Gen/MembersGlue.lean`) over the queue (`flushed | <state>`). -/
 namespace Driver.C18
 open Corro.Members
 
@@ -27,26 +32,59 @@ def showAdd : AddResult → String
   | .updated => "upd"
   | .ignored => "ign"
 
-abbrev State := Members
-def init : State := Corro.Members.init
+/-- the member table and the notifications queued for the next `flush` (oldest first) -/
+structure State where
+  m : Members
+  queue : List (NotifKind × Nat × Nat × Nat × Nat)
 
-def step (m : State) (toks : List String) : Option (State × String) :=
+def init : State := ⟨Corro.Members.init, []⟩
+
+/-- the constants of the source as it is now (`Corro/Gen/MembersConsts.lean`, regenerated from
+`members.rs` at the start of every check); the extractor refuses a zero-capacity window -/
+def cfg : Cfg := ⟨Corro.Gen.MembersConsts.ringBuckets, Corro.Gen.MembersConsts.rttCap, by decide⟩
+
+def kindOf : String → Option NotifKind
+  | "nup" => some .memberUp
+  | "ndown" => some .memberDown
+  | "nrename" => some .rename
+  | "nrejoin" => some .rejoin
+  | "nactive" => some .active
+  | "nidle" => some .idle
+  | "ndefunct" => some .defunct
+  | _ => none
+
+def step (s : State) (toks : List String) : Option (State × String) :=
+  let m := s.m
   match toks with
   | ["up", id, addr, ts, cl] => do
     let id ← id.toNat?; let addr ← addr.toNat?; let ts ← ts.toNat?; let cl ← cl.toNat?
-    let (m', r) := addMember m id addr ts cl
-    pure (m', showAdd r ++ " | " ++ showState m')
+    let (m', r) := addMember cfg m id addr ts cl
+    pure ({ s with m := m' }, showAdd r ++ " | " ++ showState m')
   | ["down", id, addr, ts, cl] => do
     let id ← id.toNat?; let _ ← addr.toNat?; let ts ← ts.toNat?; let _ ← cl.toNat?
     let (m', r) := removeMember m id ts
-    pure (m', s!"removed={r} | " ++ showState m')
+    pure ({ s with m := m' }, s!"removed={r} | " ++ showState m')
   | ["rtt", addr, ms] => do
     let addr ← addr.toNat?; let ms ← ms.toNat?
-    let m' := addRtt m addr ms
-    pure (m', "ok | " ++ showState m')
+    let m' := addRtt cfg m addr ms
+    pure ({ s with m := m' }, "ok | " ++ showState m')
   | ["ring0", cl] => do
     let cl ← cl.toNat?
-    pure (m, "r0=" ++ showNats (ring0 m cl) ++ " | " ++ showState m)
+    pure (s, "r0=" ++ showNats (ring0 m cl) ++ " | " ++ showState m)
+  | [k, id, addr, ts, cl] => do
+    let k ← kindOf k
+    let id ← id.toNat?; let addr ← addr.toNat?; let ts ← ts.toNat?; let cl ← cl.toNat?
+    if k = .active ∨ k = .idle ∨ k = .defunct then none
+    else pure ({ s with queue := s.queue ++ [(k, id, addr, ts, cl)] }, "queued")
+  | ["flush"] =>
+    let m' := s.queue.foldl (fun m n =>
+      applyNotif cfg Corro.Gen.MembersGlue.notifTable m n.1 n.2.1 n.2.2.1 n.2.2.2.1 n.2.2.2.2) m
+    some (⟨m', []⟩, "flushed | " ++ showState m')
+  | [k] => do
+    let k ← kindOf k
+    if k = .active ∨ k = .idle ∨ k = .defunct then
+      pure ({ s with queue := s.queue ++ [(k, 0, 0, 0, 0)] }, "queued")
+    else none
   | _ => none
 
 end Driver.C18
